@@ -1,0 +1,28 @@
+//go:build verif
+// +build verif
+
+// Contracts for the deductive verifier in /verif (govc). Comment-only: no executable code.
+package webhook
+
+//@ const CACHES = &a.caches
+//@ const PROV = a.clientProvider
+
+//@ func (*multiClusterTokenReviewAuthenticator).authenticateTokenForHost props C12
+//@   modifies nothing
+//@   ensures [bound] directFor(box(result), a, host)
+
+//@ func (*multiClusterTokenReviewAuthenticator).authenticateTokenForHost$1 props C12
+//@   modifies cfcalls, cfname, cferr, lbstate, trcount, trclient, cancelled
+//@   ensures [own_host] cfcalls == old(cfcalls) + 1 && cfname[old(cfcalls)] == host
+//@   ensures [history] forall k int :: {cfname[k]} k < old(cfcalls) ==> cfname[k] == old(cfname[k]) && cferr[k] == old(cferr[k])
+//@   ensures [own_cluster] trcount >= old(trcount) && (trcount > old(trcount) ==> reg[PROV][toLower(host)] != nil && clusterOfClient(trclient) == reg[PROV][toLower(host)])
+//@   ensures [cannot_ask] cferr[old(cfcalls)] != nil ==> trcount == old(trcount) && result == nil && !result1 && result2 != nil
+
+//@ func (*multiClusterTokenReviewAuthenticator).AuthenticateToken props C12
+//@   requires [cache_inv] forall h string :: {smhas(CACHES, box(h))} smhas(CACHES, box(h)) ==> boundTo(smget(CACHES, box(h)), a, h)
+//@   modifies smap(&a.caches), cfcalls, cfname, cferr, lbstate, trcount, trclient
+//@   ensures [cache_inv] forall h string :: {smhas(CACHES, box(h))} smhas(CACHES, box(h)) ==> boundTo(smget(CACHES, box(h)), a, h)
+//@   ensures [own_host] defined(host) ==> cfcalls > old(cfcalls) && forall k int :: {cfname[k]} old(cfcalls) <= k && k < cfcalls ==> cfname[k] == host
+//@   ensures [own_cluster] defined(host) ==> trcount >= old(trcount) && (trcount > old(trcount) ==> reg[PROV][toLower(host)] != nil && clusterOfClient(trclient) == reg[PROV][toLower(host)])
+//@   ensures [cannot_ask] defined(host) ==> cferr[old(cfcalls)] != nil ==> trcount == old(trcount) && cfcalls == old(cfcalls) + 1 && result == nil && !result1 && result2 != nil
+//@   ensures [no_host] !defined(host) ==> trcount == old(trcount) && cfcalls == old(cfcalls) && result == nil && !result1 && result2 != nil
